@@ -1,7 +1,7 @@
 (* Extraction of the hand-written executable model (micro-correspondence). ExtrOcamlBasic only. *)
 From Coq Require Import List Arith Extraction ExtrOcamlBasic.
 From MomoCommon Require Import GenPrelude.
-From C04 Require Gen_OpenN1_exn Gen_Open2N2_exn Gen_LimP4_exn Gen_ArrReset_exn.
+From C04 Require Gen_OpenN1_exn Gen_Open2N2_exn Gen_LimP4_exn Gen_ArrReset_exn Gen_XCheckH Gen_XCheckT.
 From C04 Require Effects ObjMgr ArrayData Ctor KeyValue Tree Relocator Replace SetCount HashGrow.
 Separate Extraction
   Effects.mkS Effects.mkH Effects.hp Effects.mem Effects.alive Effects.bsize Effects.trace Effects.sched
@@ -14,5 +14,5 @@ Separate Extraction
   HashGrow.pv_add_grow HashGrow.bucket_add0
   Replace.kv_replace Replace.kv_replace_relocate
   Relocator.run_plan Relocator.grow_plan Relocator.split_root_plan Tree.node_remove
-  Gen_OpenN1_exn.AddCrt Gen_OpenN1_exn.Remove Gen_Open2N2_exn.AddCrt Gen_Open2N2_exn.Remove Gen_LimP4_exn.AddCrt Gen_ArrReset_exn.Reset
+  Gen_OpenN1_exn.AddCrt Gen_OpenN1_exn.Remove Gen_Open2N2_exn.AddCrt Gen_Open2N2_exn.Remove Gen_LimP4_exn.AddCrt Gen_ArrReset_exn.Reset Gen_XCheckH.pvExtraCheck Gen_XCheckT.pvExtraCheck
   BinNums.positive BinNums.Z BinNums.N.
